@@ -377,6 +377,13 @@ serve(objective_type& obj, const Prob& pr, const std::string& kind, int s)
       const target_type& t = pr.subset_sens ? obj.get_subset_sensitivity(s) : obj.get_sensitivity();
       a.img.assign(t.begin_all(), t.end_all());
     }
+  else if (kind == "subsens")
+    {
+      // what OSMAPOSL divides by: the subset's sensitivity, or the total divided by the number of subsets when subset
+      // sensitivities are switched off
+      const target_type& t = obj.get_subset_sensitivity(s);
+      a.img.assign(t.begin_all(), t.end_all());
+    }
   else if (kind == "hess")
     {
       if (obj.accumulate_sub_Hessian_times_input_without_penalty(*g, *pr.lambda, *pr.input, s) != Succeeded::yes)
@@ -419,6 +426,18 @@ reference(const Prob& pr, const std::string& kind, int s, bool sens_groups_by_no
   r.mag.assign((size_t)pr.nvox, 0.);
   const bool full = kind[0] == 'f';
   std::vector<double> lam(pr.lambda->begin_all(), pr.lambda->end_all()), vin(pr.input->begin_all(), pr.input->end_all());
+  if (kind == "subsens")
+    {
+      Ref t = reference(pr, "sens", s, sens_groups_by_nontof_symmetries);
+      if (!pr.subset_sens)
+        for (size_t i = 0; i < t.img.size(); ++i)
+          {
+            t.img[i] /= pr.num_subsets;
+            t.mag[i] /= pr.num_subsets;
+          }
+      sim::probe("subset_sensitivity_as_used_by_osmaposl_checked");
+      return t;
+    }
   if (kind == "sens")
     {
       if (pr.sens_mode == 2)
@@ -543,7 +562,7 @@ check_against_reference(const Prob& pr, objective_type& obj, const std::string& 
   for (size_t i = 0; i < expect.size(); ++i)
     {
       const double tol = 1e-4 * r.mag[i] + 2e-6 * mmax;
-      if (!(std::fabs((double)a.img[i] - expect[i]) <= tol) && kind == "sens" && pr.tof && pr.subset_sens)
+      if (!(std::fabs((double)a.img[i] - expect[i]) <= tol) && (kind == "sens" || kind == "subsens") && pr.tof && pr.subset_sens)
         {
           // known finding (known_findings.json): for TOF data the subset sensitivities are computed with a non-TOF projector
           // whose view symmetries differ from those of the TOF projector (which switches the rotational ones off), so they
@@ -806,7 +825,7 @@ gen(uint64_t seed, const std::string& tier, long idx)
   p.cfg["beta"] = r.range(0, 4);
   p.cfg["data_seed"] = (long)r.below(1000000);
   static const char* kinds[] = { "value", "grad", "gradsens", "sens", "hess", "ahess", "fvalue", "fgrad", "fhess", "pvalue", "pgrad", "phess",
-                                 "fpvalue", "fpgrad", "fphess" };
+                                 "fpvalue", "fpgrad", "fphess", "subsens" };
   const int nops = (int)r.range(2, thorough ? 16 : 9);
   for (int i = 0; i < nops; ++i)
     {
